@@ -1496,7 +1496,7 @@ class LuaFormatterWriter(LuaASTEchoWriter):
 
         # If next non-space is on its own line, indent it at the indent level.
         spaces = re.sub(
-            br'\n *$', b'\n' + b' ' * self._indent_mult * self._indent,
+            br'\n *\Z', b'\n' + b' ' * self._indent_mult * self._indent,
             spaces)
         if start_pos == 0:
             spaces = re.sub(br'^ *$', b'', spaces)
